@@ -14,6 +14,59 @@ var aliasSet = []Alias{
 	{Name: "MyEnum", T: tEnum("a", "b"), Typed: true},
 }
 
+// Alternative definitions for the same four local names (each list in dependency order: MyInt first).  Functions
+// of one history pick different ones, so that a local type that outlives its function shows.
+var aliasDefs = map[string][]*PTy{
+	"MyInt":  {tIntR(0, 5), tInt(), {K: "Integer", Lo: i64(6), Hi: i64(99)}, tIntR(3, 3)},
+	"MyVar":  {tVar(tRef("MyInt"), tStrSz(2, nil)), tVar(tRef("MyInt"), tBool()), tVar(tStrSz(0, i64(1)), tRef("MyInt")), tStr()},
+	"MyArr":  {tArr(tRef("MyInt"), 1, nil), tArr(tRef("MyInt"), 0, i64(2)), tArr(tStr(), 0, nil), tArr(tRef("MyVar"), 1, i64(1))},
+	"MyEnum": {tEnum("a", "b"), tEnum("c"), tEnum("a", "b", "c"), tEnum("ab")},
+}
+
+// definitions that do not resolve (a reported error out of Resolve)
+var badDefs = map[string][]*PTy{
+	"MyInt":  {tIntR(9, 0)},
+	"MyVar":  {tVar(tRef("MyInt"), tStrSz(5, i64(2)))},
+	"MyArr":  {tArr(tRef("MyInt"), 5, i64(2)), tArr(tIntR(1, 0), 0, nil)},
+	"MyEnum": {tOpt(tIntR(9, 0))},
+}
+
+var aliasNames = []string{"MyInt", "MyVar", "MyArr", "MyEnum"}
+
+func badTypes() []*PTy {
+	return []*PTy{tIntR(9, 0), tStrSz(5, i64(2)), tArr(tInt(), 5, i64(2)), tOpt(tIntR(9, 0)), tVar(tStr(), tIntR(3, 1))}
+}
+
+// aliasVariant: the four local names with the definitions picked by idx (one index per name; -1 = a definition
+// that does not resolve)
+func aliasVariant(idx [4]int) []Alias {
+	out := []Alias{}
+	for i, n := range aliasNames {
+		var t *PTy
+		if idx[i] < 0 {
+			t = badDefs[n][(-idx[i]-1)%len(badDefs[n])]
+		} else {
+			t = aliasDefs[n][idx[i]%len(aliasDefs[n])]
+		}
+		out = append(out, Alias{Name: n, T: t, Typed: n == "MyEnum" && idx[i]%2 == 0})
+	}
+	return out
+}
+
+func randomAliases(r *lib.Rng, allowBad bool) []Alias {
+	var idx [4]int
+	for i := range idx {
+		idx[i] = r.Intn(4)
+	}
+	if r.Chance(1, 3) {
+		idx = [4]int{0, 0, 0, 0}
+	}
+	if allowBad {
+		idx[r.Intn(4)] = -1 - r.Intn(2)
+	}
+	return aliasVariant(idx)
+}
+
 func plainTypes() []*PTy {
 	return []*PTy{
 		tInt(), tIntR(0, 5), {K: "Integer", Lo: i64(6)}, {K: "Integer", Hi: i64(-1)},
@@ -105,6 +158,36 @@ func dispatchCorpus() []*FnCase {
 		{Aliases: aliasSet, Disps: [][]Op{{P("Param", tRef("MyVar")), P("Opt", tRef("MyEnum")), fn}, {P("Rep", tRef("MyArr")), fn}},
 			Calls: append(std, c(-1, vStr("ab"), vStr("a")), c(-1, vStr("ab"), vStr("c")), c(-1, vArr(vInt(1)), vArr(vInt(7))), c(-1, vArr(vInt(1)), vArr(vInt(5))))},
 		{Disps: [][]Op{{P("Param", tRef("NoSuchType")), fn}, {P("Param", tInt()), fn}}, Calls: std},
+		// other definitions under the same local names
+		{Aliases: aliasVariant([4]int{1, 1, 1, 1}), Disps: [][]Op{{P("Param", tRef("MyVar")), P("Opt", tRef("MyEnum")), fn}, {P("Rep", tRef("MyArr")), fn}, {P("Param", tRef("MyInt")), P("Param", tAny()), fn}},
+			Calls: append(std, c(-1, vInt(7), vStr("c")), c(-1, vBool(true)), c(-1, vArr(vInt(1)), vArr(vInt(7))), c(-1, vArr(vInt(1), vInt(2), vInt(3))), c(-1, vInt(7), vInt(7)))},
+		{Aliases: aliasVariant([4]int{2, 2, 3, 2}), Disps: [][]Op{{P("Param", tRef("MyInt")), fn}, {P("Param", tRef("MyVar")), fn}, {P("Rep", tRef("MyArr")), fn}},
+			Calls: append(std, c(-1, vInt(6)), c(-1, vInt(5)), c(-1, vStr("a")), c(-1, vStr("ab")), c(-1, vArr(vInt(7))), c(-1, vArr(vStr("a"))), c(-1, vArr(vInt(7), vInt(8))))},
+		// block types that accept a missing block without OptionalBlock (literal Optional, Variant[Undef,..], Any,
+		// Undef, local aliases), alone and in front of a fallback dispatch
+		{Disps: [][]Op{{P("Param", I), blk(9), fn2}, {P("Param", tAny()), fn}}, Calls: blkCalls},
+		{Disps: [][]Op{{P("Param", I), blk(9), fn2}}, Calls: blkCalls},
+		{Disps: [][]Op{{P("Param", I), oblk(9), fn2}}, Calls: blkCalls},
+		{Disps: [][]Op{{P("Param", I), blk(10), fn2}, {P("Param", tAny()), fn}}, Calls: blkCalls},
+		{Disps: [][]Op{{P("Param", I), blk(11), fn2}, {P("Param", tAny()), fn}}, Calls: blkCalls},
+		{Disps: [][]Op{{P("Param", I), blk(11), fn2}}, Calls: blkCalls},
+		{Disps: [][]Op{{P("Param", I), blk(12), fn2}, {P("Param", tAny()), fn}}, Calls: blkCalls},
+		{Disps: [][]Op{{P("Param", I), blk(13), fn2}, {P("Param", tAny()), fn}}, Calls: blkCalls},
+		{Disps: [][]Op{{P("Param", I), blk(14), fn2}, {P("Param", tAny()), fn}}, Calls: blkCalls},
+		{Disps: [][]Op{{P("Param", I), blk(15), fn2}, {P("Param", tAny()), fn}}, Calls: blkCalls},
+		{Disps: [][]Op{{P("Param", I), blk(15), fn2}}, Calls: blkCalls},
+		{Disps: [][]Op{{P("Param", I), oblk(15), fn2}}, Calls: blkCalls},
+		{Disps: [][]Op{{P("Param", I), blk(16), fn2}, {P("Param", tAny()), fn}}, Calls: blkCalls},
+		{Disps: [][]Op{{P("Param", I), blk(17), fn2}, {P("Param", tAny()), fn}}, Calls: blkCalls},
+		{Disps: [][]Op{{P("Param", I), blk(18), fn2}, {P("Param", I), blk(16), fn2}}, Calls: blkCalls},
+		{Disps: [][]Op{{P("Param", I), blk(19), fn2}, {P("Param", tAny()), fn}}, Calls: blkCalls},
+		{Aliases: aliasSet, Disps: [][]Op{{P("Param", tRef("MyInt")), blk(17), fn2}, {P("Param", tRef("MyVar")), oblk(16), fn2}}, Calls: append(blkCalls, c(-1, vStr("ab")), c(1, vStr("ab")), c(0, vStr("ab")))},
+		// type expressions that do not resolve: Resolve raises a reported error (no local types here, so that the
+		// harness' main context never has a loader installed while it fails)
+		{Disps: [][]Op{{P("Param", tIntR(9, 0)), fn}}, Calls: std},
+		{Disps: [][]Op{{P("Param", I), fn}, {P("Opt", tStrSz(5, i64(2))), fn}}, Calls: std},
+		{Disps: [][]Op{{P("Rep", tArr(tInt(), 5, i64(2))), fn}}, Calls: std},
+		{Disps: [][]Op{{P("Opt", I), P("Param", tIntR(9, 0)), fn}}, Calls: std},
 	}
 	for _, x := range cs {
 		x.Kind = "dispatch"
@@ -121,7 +204,7 @@ func exhaustiveFns(maxLen int) []*FnCase {
 	var rec func(seq []string, l int)
 	rec = func(seq []string, l int) {
 		if len(seq) == l {
-			for variant := 0; variant < 3; variant++ {
+			for variant := 0; variant < 5; variant++ {
 				ops := []Op{}
 				for i, k := range seq {
 					ops = append(ops, Op{K: k, T: slot[i], Typed: i%2 == 1})
@@ -133,6 +216,10 @@ func exhaustiveFns(maxLen int) []*FnCase {
 					ops = append(ops, Op{K: "Block", B: 2}, Op{K: "Function2"})
 				case 2:
 					ops = append(ops, Op{K: "OptBlock", B: 2}, Op{K: "Function2"})
+				case 3: // a local alias of Optional[Callable[1,1]]: accepts a missing block
+					ops = append(ops, Op{K: "Block", B: firstAliasBlock}, Op{K: "Function2"})
+				case 4: // Variant[Undef,Callable[1,1]]
+					ops = append(ops, Op{K: "Block", B: 11}, Op{K: "Function2"})
 				}
 				out = append(out, &FnCase{Kind: "dispatch", Disps: [][]Op{ops}})
 			}
@@ -209,6 +296,9 @@ func randomDecl(r *lib.Rng, pool []*PTy, allowIll bool) []Op {
 			k = "OptBlock"
 		}
 		b := Op{K: k, B: r.Intn(len(blockTypes)), Typed: r.Chance(1, 4)}
+		if isAliasBlock(b.B) {
+			b.Typed = false
+		}
 		ret := r.Chance(1, 4)
 		if ret && r.Bool() {
 			ops = append(ops, Op{K: "Returns"})
@@ -239,10 +329,16 @@ func randomDecl(r *lib.Rng, pool []*PTy, allowIll bool) []Op {
 }
 
 func randomFn(e *env, r *lib.Rng, nCalls int) *FnCase {
+	return randomFnWith(e, r, nCalls, r.Chance(1, 3), 0)
+}
+
+// randomFnWith: withAliases = declare the four local names (random definitions) and use them;
+// breakIt: 0 = every type resolves, 1 = one parameter type does not, 2 = one local type does not
+func randomFnWith(e *env, r *lib.Rng, nCalls int, withAliases bool, breakIt int) *FnCase {
 	fc := &FnCase{Kind: "dispatch"}
 	pool := plainTypes()
-	if r.Chance(1, 3) {
-		fc.Aliases = aliasSet
+	if withAliases {
+		fc.Aliases = randomAliases(r, breakIt == 2)
 		pool = append(pool, aliasTypes()...)
 		pool = append(pool, aliasTypes()...)
 	}
@@ -255,6 +351,22 @@ func randomFn(e *env, r *lib.Rng, nCalls int) *FnCase {
 	n := 1 + r.Intn(4)
 	for i := 0; i < n; i++ {
 		fc.Disps = append(fc.Disps, randomDecl(r, sub, allowIll))
+	}
+	if breakIt == 1 {
+		// replace the type of one parameter by an expression that does not resolve
+		bad := badTypes()
+		di := r.Intn(len(fc.Disps))
+		placed := false
+		for j, o := range fc.Disps[di] {
+			if isParamOp(o.K) {
+				fc.Disps[di][j] = Op{K: o.K, T: bad[r.Intn(len(bad))]}
+				placed = true
+				break
+			}
+		}
+		if !placed {
+			fc.Disps[di] = append([]Op{{K: "Opt", T: bad[r.Intn(len(bad))]}}, fc.Disps[di]...)
+		}
 	}
 	inst := e.instFor(fc.Aliases)
 	vals := valuePool()
@@ -330,3 +442,66 @@ func randomFn(e *env, r *lib.Rng, nCalls int) *FnCase {
 }
 
 var _ px.Value
+
+// randomHistory: 2-4 functions for one context.  Most declare the same four local names with different
+// definitions; about every third one cannot be resolved (a parameter type or a local type that does not resolve,
+// or an ill-formed dispatch), after which the context goes on being used.
+func randomHistory(e *env, r *lib.Rng, nCalls int) *History {
+	h := &History{Kind: "history"}
+	n := 2 + r.Intn(3)
+	for i := 0; i < n; i++ {
+		breakIt := 0
+		if i < n-1 && r.Chance(2, 5) {
+			breakIt = 1 + r.Intn(2)
+		} else if r.Chance(1, 12) {
+			breakIt = 1 + r.Intn(2)
+		}
+		withAliases := r.Chance(5, 6) || breakIt == 2
+		calls := nCalls
+		if breakIt != 0 {
+			calls = 2
+		}
+		h.Fns = append(h.Fns, randomFnWith(e, r.Fork(), calls, withAliases, breakIt))
+	}
+	return h
+}
+
+// historyCorpus: the shapes that matter for "state left in the context".
+func historyCorpus() []*History {
+	fn := Op{K: "Function"}
+	c := func(vs ...*PVal) CallIn { return CallIn{Args: vs, Blk: -1} }
+	calls := []CallIn{c(vInt(3)), c(vInt(5)), c(vInt(6)), c(vInt(7)), c(vInt(-1)), c(vStr("ab")), c(vStr("a")), c(vBool(true)),
+		c(vArr(vInt(1))), c(vArr(vInt(7))), c(vArr(vStr("a"))), c(vArr()), c(vStr("c")), c()}
+	limits := func(v [4]int) *FnCase {
+		return &FnCase{Kind: "dispatch", Aliases: aliasVariant(v), Disps: [][]Op{{P("Param", tRef("MyInt")), fn}, {P("Param", tRef("MyVar")), fn},
+			{P("Param", tRef("MyArr")), fn}, {P("Param", tRef("MyEnum")), fn}}, Calls: calls}
+	}
+	brokenParam := func(v [4]int) *FnCase {
+		return &FnCase{Kind: "dispatch", Aliases: aliasVariant(v), Disps: [][]Op{{P("Param", tRef("MyInt")), P("Param", tRef("MyVar")), P("Param", tIntR(9, 0)), fn}}, Calls: calls[:2]}
+	}
+	brokenAlias := func(v [4]int) *FnCase {
+		return &FnCase{Kind: "dispatch", Aliases: aliasVariant(v), Disps: [][]Op{{P("Param", tRef("MyInt")), fn}}, Calls: calls[:2]}
+	}
+	illFormed := func(v [4]int) *FnCase {
+		return &FnCase{Kind: "dispatch", Aliases: aliasVariant(v), Disps: [][]Op{{P("Opt", tRef("MyInt")), P("Param", tRef("MyVar")), fn}}, Calls: calls[:2]}
+	}
+	plain := &FnCase{Kind: "dispatch", Disps: [][]Op{{P("Param", tIntR(0, 5)), fn}, {P("Param", tRef("MyInt")), fn}, {P("Param", tAny()), fn}}, Calls: calls}
+	v0, v1, v2 := [4]int{0, 0, 0, 0}, [4]int{1, 1, 1, 1}, [4]int{2, 2, 2, 2}
+	hs := []*History{
+		{Fns: []*FnCase{limits(v0), brokenParam(v1), limits(v0)}},
+		{Fns: []*FnCase{limits(v1), brokenParam(v0), limits(v1), plain}},
+		{Fns: []*FnCase{brokenParam(v1), limits(v2)}},
+		{Fns: []*FnCase{brokenAlias([4]int{1, 1, -1, 1}), limits(v0)}},
+		{Fns: []*FnCase{brokenAlias([4]int{2, -1, 0, 1}), limits(v0), limits(v1)}},
+		{Fns: []*FnCase{brokenAlias([4]int{-1, 1, 1, 1}), limits(v2)}},
+		{Fns: []*FnCase{brokenAlias([4]int{1, 1, 1, -1}), plain, limits(v0)}},
+		{Fns: []*FnCase{illFormed(v1), limits(v0)}},
+		{Fns: []*FnCase{limits(v0), limits(v1), limits(v2), limits(v0)}},
+		{Fns: []*FnCase{brokenParam(v1), brokenParam(v2), limits(v0)}},
+		{Fns: []*FnCase{limits(v2), plain}},
+	}
+	for _, h := range hs {
+		h.Kind = "history"
+	}
+	return hs
+}
